@@ -42,7 +42,7 @@ def parse(line):
     i = 0
     cur = None
     for t in toks:
-        for k in ("D=", "info=", "text=", "llil=", "emu="):
+        for k in ("D=", "info=", "text=", "llil=", "emu=", "emuh="):
             if t.startswith(k):
                 cur = k[:-1]
                 out[cur] = [t[len(k):]]
@@ -55,3 +55,9 @@ def parse(line):
 
 def fmt(c):
     return f"{c[0]} {c[1]} {c[2]}"
+
+
+def strip_history(line):
+    """drop the harness's emuh= field (same fetch on a long-lived Emulator)"""
+    i = line.find(" emuh=")
+    return line if i < 0 else line[:i]
